@@ -262,7 +262,10 @@ def model_input(case: dict, real: list[str]):
 def oracle(case: dict, real: list[str]) -> str | None:
     """clauses of C14 / C18 read off the real run alone"""
     for ln in real:
-        if ln.startswith(("harness-exc", "exc-", "bad-op")):
+        if ln.startswith(("harness-exc", "bad-op")):
+            # the harness could not drive / observe the listener (e.g. a private attribute it reads was renamed): not a verdict
+            raise core.InfraError(f"C14/C18 lsn: {ln}")
+        if ln.startswith("exc-"):
             return f"unexpected: {ln}"
     evs = case["events"]
     outs = [ln for ln in real if not ln.startswith("state ")]
